@@ -9,4 +9,5 @@
 //@include units/arrival_cache.rs
 //@include units/arrival_prefix.rs
 //@include units/lemmas_arrival.rs
+//@include units/lemmas_curve_tightens.rs
 fn main() {}
